@@ -470,6 +470,11 @@ def check_c02(run):
     cs.append(("1d-h5-per", fmm_constants(1, 5, POOL_1D_H5[:6], periodic=True, stops=(1,), bss=(1, 2, 20))))
     cs.append(("2d-h3-per", fmm_constants(2, 3, [0, 3, 5, 10, 15], periodic=True, stops=(1,), bss=(1, 2, 20))))
     cs.append(("tsm-1d-h4", fmm_constants(1, 4, range(5), mode="tsm", bss=(1, 2, 3))))
+    # target/source calls in the other dimensions (self interaction code, one-sided lists) and with wrapped lists
+    cs.append(("tsm-2d-h3", fmm_constants(2, 3, [0, 3, 9, 15], mode="tsm", maxparts=3, bss=(1, 2))))
+    cs.append(("tsm-3d-h3", fmm_constants(3, 3, POOL_3D_H3[:3], mode="tsm", bss=(1, 2))))
+    cs.append(("tsm-4d-h3", fmm_constants(4, 3, POOL_4D_H3[:3], mode="tsm", maxparts=2, bss=(1, 2))))
+    cs.append(("tsm-2d-h3-per", fmm_constants(2, 3, [0, 3, 15], mode="tsm", periodic=True, stops=(1,), maxparts=2, bss=(1, 2))))
     run_fmm_configs(run, "C02", cs, cap=256)
     trace_campaign(run, "C02", run.tier, modes=(0, 1), events=4)
     run.coverage["rule"] = FMM_RULE + "; every operator call made by the library is checked: particles inside the leaf box with original index and data, children distinct children of the parent with true octant codes, sources at the encoded offset (modulo the box when periodic), well separated / adjacent, at the stated level, never an empty list"
@@ -485,10 +490,18 @@ def check_c08(run):
     bss = (1, 2, 3, 4, 5, 7, 11, 20) if run.tier == "quick" else (1, 2, 3, 4, 5, 6, 7, 8, 9, 11, 13, 20, 1000)
     cs = std_configs(run.tier, bss=bss, small=True)
     pairs = run_fmm_configs(run, "C08", cs)
+    # groupings of the other modes: target/source trees, periodic in-box lists, and the periodic top tree (whose upward pass gathers the level-1 cells
+    # across the level-1 groups)
+    q = run.tier == "quick"
+    pairs += run_fmm_configs(run, "C08", [("tsm-1d-h4", fmm_constants(1, 4, range(5), mode="tsm", bss=(1, 2, 3, 5, 20))),
+                                          ("per-1d-h4", fmm_constants(1, 4, [0, 1, 3, 4, 7], periodic=True, stops=(1,), bss=(1, 2, 3, 5, 20)))])
+    pairs += run_fmm_configs(run, "C08", [("per-1d-h3-top", fmm_constants(1, 3, range(4), periodic=True, maxparts=3, stops=(1,), bss=(1, 2, 3, 20), hists=("ptop",), aboves=(0, 1) if q else (0, 1, 2))),
+                                          ("per-2d-h2-top", fmm_constants(2, 2, range(4), periodic=True, maxparts=2 if q else 3, stops=(1,), bss=(1, 2, 3, 20), hists=("ptop",), aboves=(0,) if q else (0, 1))),
+                                          ("per-2d-h3-top", fmm_constants(2, 3, [0, 5, 10, 15], periodic=True, maxparts=2, stops=(1,), bss=(1, 2, 3, 20), hists=("ptop",), aboves=(0,)))], cap=1024)
     # the state digests, the elementary-interaction digest and the counters must be identical for all groupings of one occupancy
     groups = {}
     for r, line in pairs:
-        key = (r["dim"], r["height"], tuple(r["sparts"]), r["stop"], r["hist"])
+        key = (r["dim"], r["height"], r["mode"], r["periodic"], tuple(r["sparts"]), tuple(r["tparts"]), r["stop"], r["hist"], r["above"])
         sig = json.dumps([r["mpd"], r["lod"], r["rhsd"], r["elem"], r["nelem"], r["cnt"]])
         groups.setdefault(key, {}).setdefault(sig, []).append((r["bs"], r["ogpp"]))
     for key, sigs in groups.items():
